@@ -330,6 +330,12 @@ func (se *shapeEval) lengthOf(mi *methInfo) (p Poly, form string, why string) {
 		}
 	}
 	e := ast.Unparen(last.Results[0])
+	// a running sum (`n := a; n += b; return n`) is the expression it adds up to
+	if len(body) > 1 {
+		if _, ret, ok := symRun(mi.pk.TypesInfo, body, symEnv{}); ok && ret != nil {
+			e = ast.Unparen(ret)
+		}
+	}
 	if call, ok := e.(*ast.CallExpr); ok {
 		if f := calleeFunc(mi.pk.TypesInfo, call); f != nil && isZtyp(f) && f.Name() == "ContainerLength" {
 			return nil, "container", ""
@@ -487,7 +493,32 @@ func ruleSSZSize(c *Ctx) {
 				c.bad(key, bl.fd.Pos(), "%s ByteLength must be len(bytes), returns %s", sh.K, bp.String())
 			}
 		case "container":
-			c.bad(key, bl.fd.Pos(), "variable-size container must use codec.ContainerLength, returns %s", bp.String())
+			// written out by hand: the fixed-size fields' sizes, and an offset plus its own length for every other field
+			want, okW := Poly{}, len(sh.Names) == len(sh.Fields) && form == "expr"
+			got := bp
+			for i, f := range sh.Fields {
+				if !okW {
+					break
+				}
+				fs, ff, fok := fixedSize(f)
+				switch {
+				case !fok:
+					okW = false
+				case ff:
+					want = polyAdd(want, fs, 1)
+					got = polySubst(got, "bl:"+sh.Names[i], fs)
+				default:
+					want = polyAdd(want, polyAdd(polyConst(4), polyAtom("bl:"+sh.Names[i]), 1), 1)
+				}
+			}
+			switch {
+			case !okW:
+				c.unm(key, bl.fd.Pos(), "variable-size container with a hand-written length (%s): fields not all known", bp.String())
+			case polyEq(got, want):
+				c.ok(key, bl.fd.Pos(), "hand-written sum over the fields: %s", want.String())
+			default:
+				c.bad(key, bl.fd.Pos(), "ByteLength returns %s, the fields of %s give %s (4 bytes of offset and its own length for every variable-size field)", bp.String(), truncate(sh.String(), 80), want.String())
+			}
 		default:
 			c.unm(key, bl.fd.Pos(), "variable-size %s", sh.K)
 		}
@@ -566,8 +597,9 @@ func ruleCodecScope(c *Ctx) {
 			if f == nil || f.Name() != "NewDecodingReader" || !isZtyp(f) {
 				return true
 			}
-			// first arg bytes.NewReader(x[:])
-			in, ok := ast.Unparen(call.Args[0]).(*ast.CallExpr)
+			// first arg bytes.NewReader(x[:]) (possibly through a local)
+			ldefs := singleDefs(info, fd.Body)
+			in, ok := ast.Unparen(resolveLocal(info, call.Args[0], ldefs, 3)).(*ast.CallExpr)
 			if !ok || len(in.Args) != 1 {
 				return true
 			}
@@ -576,6 +608,16 @@ func ruleCodecScope(c *Ctx) {
 			}
 			sl, ok := ast.Unparen(in.Args[0]).(*ast.SliceExpr)
 			if !ok || sl.Low != nil || sl.High != nil {
+				// a byte slice handed in: the scope must be its length
+				if _, isSlice := info.TypeOf(in.Args[0]).Underlying().(*types.Slice); isSlice {
+					key := pkgShort(pk.Types) + "." + funcName(fd)
+					sc := ast.Unparen(stripConv(info, resolveLocal(info, call.Args[1], ldefs, 3)))
+					if lc, ok := sc.(*ast.CallExpr); ok && len(lc.Args) == 1 {
+						if id, ok := lc.Fun.(*ast.Ident); ok && id.Name == "len" && types.ExprString(ast.Unparen(lc.Args[0])) == types.ExprString(ast.Unparen(in.Args[0])) {
+							c.ok(key, call.Pos(), "scope is the length of the bytes read")
+						}
+					}
+				}
 				return true
 			}
 			at, ok := derefT(info.TypeOf(sl.X)).Underlying().(*types.Array)
